@@ -205,8 +205,16 @@ def gen_case(seeds, params, index):
     spec = {'policy': pol, 'seed': seeds.sub('sched'),
             'mean': s.choice([3, 30, 300, 3000]),
             'nswitch': s.randrange(1, 6)}
+    modes = []
+    for ops in tasks:
+        for si, di in ops:
+            r = w.random()
+            if stmts[si]['kind'] == 'text' and r < 0.3:
+                modes.append([si, di, w.choice(['parse', 'parse', 'copy', 'yi'])])
     return {'stmts': stmts, 'docs': docs, 'tasks': tasks, 'sched': spec,
-            'via_eval': eval_flavour, 'cold': w.random() < 0.25}
+            'via_eval': eval_flavour, 'cold': w.random() < 0.25,
+            'shared': w.choice(['plain', 'plain', 'plain', 'multi', 'linked']),
+            'modes': modes}
 
 
 # ---------------------------------------------------------------------------
@@ -300,6 +308,17 @@ class World:
         P['hostdict'] = {'k': [1], 'm': {'z': 1}}
         for k, v in synth.std_vars().items():
             P[k] = v
+        shared = case.get('shared', 'plain')
+        if shared == 'multi':
+            # the host composes its prepared layer with a second one
+            from yaql.language import contexts
+            P2 = P.parent.create_child_context()
+            P2['extra'] = [7, 8]
+            P2.register_function(lambda x: x, name='ident')
+            P = contexts.MultiContext([P, P2])
+        elif shared == 'linked':
+            from yaql.language import contexts
+            P = contexts.LinkedContext(root, P)
         self.P = P
         self.engine = synth.chain_engine('default')
         self.stmts = []
@@ -380,6 +399,8 @@ def run_world(case, stats, record=None):
         yaql._cached_expressions = {}
         yaql._default_context = world.P
 
+    modes = {(a, b): m_ for a, b, m_ in case.get('modes', [])}
+
     def evaluate(si, di, w=None):
         w = w or world
         st = w.stmts[si]
@@ -388,6 +409,20 @@ def run_world(case, stats, record=None):
             # texts that do not parse go through yaql.eval as well (its error
             # path touches the module-level caches)
             return yaql.eval(case['stmts'][si]['expr'], data)
+        mode = modes.get((si, di))
+        text = case['stmts'][si].get('expr')
+        if mode == 'parse' and text is not None:
+            # the worker thread parses the text itself (engine shared by all
+            # threads), then evaluates
+            return w.engine(text).evaluate(
+                data=data, context=w.P.create_child_context())
+        if mode == 'copy' and text is not None:
+            return w.engine(text, {'yaql.limitIterators': 1000}).evaluate(
+                data=data, context=w.P.create_child_context())
+        if mode == 'yi' and text is not None:
+            from yaql import yaql_interface
+            return yaql_interface.YaqlInterface(w.P, w.engine)(
+                text, data, 7, who='x')
         if st is None:
             raise ValueError('unparsable statement')
         return st.evaluate(data=data, context=w.P.create_child_context())
@@ -575,6 +610,9 @@ def execute(case, stats):
         stats.inc('flavour.yaql_eval')
     if case.get('cold'):
         stats.inc('flavour.cold_context_chain')
+    stats.inc('flavour.shared_' + case.get('shared', 'plain'))
+    for m_ in case.get('modes', []):
+        stats.inc('flavour.op_' + m_[2])
     sig = core.h64(core.jdump(case['stmts']), core.jdump(case['tasks']),
                    core.jdump(info.get('recorded', [])))
     stats.add('interleavings', sig)
@@ -622,6 +660,10 @@ def shrink_candidates(case):
         yield mk(via_eval=False)
     if case.get('cold'):
         yield mk(cold=False)
+    if case.get('shared', 'plain') != 'plain':
+        yield mk(shared='plain')
+    if case.get('modes'):
+        yield mk(modes=[])
 
 
 def match_known(case, viol, entry):
